@@ -11,18 +11,20 @@ Section Gen.
 Variable rs : graph -> key -> key -> rstate -> res (bool * rstate).            (* reportSkip([k]) on x *)
 Variable rv : graph -> key -> key -> handle -> rstate -> res rstate.           (* reportValues({from: h}) on x *)
 
-Fixpoint skip_each_g (g : graph) (from : key) (xs : list key) (st : rstate) : res (list key * rstate) :=
+Fixpoint skip_each_g (g : graph) (from : key) (xs : list key) (queued : list key) (st : rstate)
+  : res (list key * list key * rstate) :=
   match xs with
-  | [] => Ok ([], st)
+  | [] => Ok ([], queued, st)
   | x :: xs' =>
       do r <- rs g x from st;
       let '(sk, st1) := r in
-      do r2 <- skip_each_g g from xs' st1;
-      let '(ks, st2) := r2 in
-      Ok (if sk then x :: ks else ks, st2)
+      let isnew := sk && negb (memb x queued) in
+      do r2 <- skip_each_g g from xs' (if isnew then x :: queued else queued) st1;
+      let '(ks, q2, st2) := r2 in
+      Ok (if isnew then x :: ks else ks, q2, st2)
   end.
 
-Fixpoint cascade_g (g : graph) (fuel : nat) (work : list key) (st : rstate) : res rstate :=
+Fixpoint cascade_g (g : graph) (fuel : nat) (work : list key) (queued : list key) (st : rstate) : res rstate :=
   match work with
   | [] => Ok st
   | k :: rest =>
@@ -32,24 +34,24 @@ Fixpoint cascade_g (g : graph) (fuel : nat) (work : list key) (st : rstate) : re
           match call_of g k with
           | None => Err E_UNKNOWN_NODE
           | Some c =>
-              do r <- skip_each_g g k (succs c) st;
-              let '(ks, st1) := r in
-              cascade_g g f (rest ++ ks) st1
+              do r <- skip_each_g g k (succs c) queued st;
+              let '(ks, q1, st1) := r in
+              cascade_g g f (rest ++ ks) q1 st1
           end
       end
   end.
 
 Definition report_branch_g (g : graph) (from : key) (skipped : list key) (st : rstate) : res rstate :=
-  do r <- skip_each_g g from skipped st;
-  let '(ks, st1) := r in
-  cascade_g g CASCADE_FUEL ks st1.
+  do r <- skip_each_g g from skipped [] st;
+  let '(ks, q, st1) := r in
+  cascade_g g CASCADE_FUEL ks q st1.
 
-Definition resolve_one_g (g : graph) (t : task) (out : handle) (st : rstate) : res (resolved * rstate) :=
+Definition resolve_one_g (g : graph) (c : call) (t : task) (out : handle) (st : rstate) : res (resolved * rstate) :=
   do r <- resolve_task t out (rs_store st);
   let st1 := set_store st (r_store r) in
   do s2 <- consume_all (r_branch_in r) (rs_store st1);
   let st2 := set_store st1 s2 in
-  do st3 <- report_branch_g g (t_node t) (skipped_ends t) st2;
+  do st3 <- report_branch_g g (t_node t) (skipped_ends c t) st2;
   do st4 <- close_all OResolve (r_closed r) st3;
   Ok (r, st4).
 
@@ -73,7 +75,7 @@ Fixpoint phase1_g (g : graph) (b : batch) (st : rstate) : res (list (call * task
       | Some c =>
           do t <- mk_task k c outs;
           let '(out, s1) := fresh (rs_store st) in
-          do r <- resolve_one_g g t out (set_store st s1);
+          do r <- resolve_one_g g c t out (set_store st s1);
           let '(rv', st1) := r in
           do r2 <- phase1_g g b' st1;
           let '(l, st2) := r2 in
@@ -87,14 +89,17 @@ Fixpoint phase2_g (g : graph) (l : list (call * task * resolved)) (st : rstate) 
   | (c, t, r) :: l' => do st1 <- update_one_g g t r st; phase2_g g l' st1
   end.
 
-Definition superstep_g (g : graph) (b : batch) (st : rstate) : res outcome :=
+Definition calc_next_g (g : graph) (b : batch) (st : rstate) : res (list (key * handle) * rstate) :=
   if negb (batch_fits g b (rs_pending st)) then Err E_BAD_SCHEDULE else
   do r1 <- phase1_g g b st;
   let '(l, st1) := r1 in
   do st2 <- phase2_g g l st1;
   do st3 <- phase3 g l st2;
   let st3' := mark_resolved (map fst b) st3 in
-  do r4 <- get_ready g (chan_keys g) st3';
+  get_ready g (chan_keys g) st3'.
+
+Definition superstep_g (g : graph) (b : batch) (st : rstate) : res outcome :=
+  do r4 <- calc_next_g g b st;
   let '(ready, st4) := r4 in
   match nlist_get kEND ready with
   | Some out => Ok (Done out (filter (fun kh => negb (N.eqb (fst kh) kEND)) ready) st4)
